@@ -258,7 +258,7 @@ func entryPointsFor(kind string) []string {
 		case "RespSendJoin":
 			eps = append(eps, "Body:SendJoin")
 		case "Transaction":
-			eps = append(eps, "Body:Transaction")
+			eps = append(eps, "Body:Transaction", "Body:Backfill")
 		case "LoadAndVerify":
 			eps = append(eps, "Body:LoadAndVerify")
 		case "RespMakeJoin":
